@@ -1164,6 +1164,102 @@ static std::vector<Theta> exactSettings(Rng& g, ExactModel& m)
   return out;
 }
 
+// Nearly reducible FullHmmTransitionMatrix (groups of states connected by entries 1e-9), uninformative data
+// (every emission 1): the stationary vector must be a distribution with pi P = pi, and the probability of the
+// data is 1 whatever the matrix.  Fixed-point (E4): pi6 = round(pi * 1e6), P4 / pi4 = round(. * 1e4), L6 = round(exp(logL) * 1e6).
+static long fx(double x, double sc)
+{
+  double v = x * sc;
+  if (!(v == v) || v > 2.0e9 || v < -2.0e9) return -1000000000;
+  return static_cast<long>(std::floor(v + 0.5));
+}
+
+static Theta nearTheta(Rng& g, size_t n, int shape)
+{
+  // shape 0: two closed groups {1..h} | {h+1..n}; shape 1: state 1 feeds a closed group {2..n}
+  const double e = 1e-9;
+  size_t h = shape == 0 ? (n + 1) / 2 : 1;
+  Theta th;
+  thetaSet(th, "a", 0);
+  thetaSet(th, "b", 0);
+  for (size_t i = 0; i < n; ++i)
+  {
+    std::vector<double> row(n, e);
+    bool first = i < h;
+    size_t lo = first ? 0 : h, hi = first ? h : n;
+    if (shape == 1 && first)
+    {
+      lo = 1;
+      hi = n;
+    }
+    double sum = 0;
+    for (size_t j = lo; j < hi; ++j)
+    {
+      row[j] = 0.1 + g.unit();
+      sum += row[j];
+    }
+    double rest = 1.0 - e * static_cast<double>(n - (hi - lo));
+    for (size_t j = lo; j < hi; ++j) row[j] *= rest / sum;
+    fullTheta(th, i, row);
+  }
+  return th;
+}
+
+static void nearEvent(Built& o, const Conf& c, const std::vector<size_t>& bps)
+{
+  const bpp::HmmTransitionMatrix& T = o.lik->hmmTransitionMatrix();
+  Arr pi6, pi4, P4, b;
+  for (size_t x : bps) b.add(x);
+  for (size_t i = 0; i < c.n; ++i)
+  {
+    pi6.add(fx(T.getEquilibriumFrequencies()[i], 1e6));
+    pi4.add(fx(T.getEquilibriumFrequencies()[i], 1e4));
+    Arr r;
+    for (size_t j = 0; j < c.n; ++j) r.add(fx(T.Pij(i, j), 1e4));
+    P4.add(r);
+  }
+  double logL = 0;
+  std::string lr = outcome<bpp::Exception>([&]() { logL = o.lik->getLogLikelihood(); });
+  tracer().emit(Obj().kv("e", "Near").kv("cls", c.cls).kv("n", c.n).kv("len", c.len).kv("bps", b).kv("pi6", pi6).kv("pi4", pi4).kv("P4", P4)
+                    .kv("Lr", lr).kv("fin", std::isfinite(logL)).kv("L6", fx(std::exp(logL), 1e6)).kv("mem", g_overruns.load() == 0));
+}
+
+static long modeNear(Rng& g, long reps, long& scenarios)
+{
+  long events = 0;
+  const char* classes[] = {"rescaled", "logsum", "lowmem"};
+  for (size_t n = 2; n <= 5; ++n)
+    for (int shape = 0; shape < 2; ++shape)
+      for (const char* cls : classes)
+        for (long rep = 0; rep < reps; ++rep)
+        {
+          Conf c;
+          c.cls = cls;
+          c.tm = "full";
+          c.n = n;
+          c.len = 1 + g.below(4);
+          c.chunk = c.cls == "lowmem" ? 1 + g.below(c.len + 1) : 0;
+          c.c0 = constTab(c.len, n, 1.0);
+          c.ca = constTab(c.len, n, 0.0);
+          c.cb = c.ca;
+          c.cq = c.ca;
+          std::vector<size_t> bps = randBps(g, c.len);
+          tracer().emit(Obj().kv("e", "Reset").kv("k", c.cls).kv("tm", c.tm).kv("n", c.n).kv("len", c.len).kv("chunk", c.chunk).kv("near", true));
+          ++scenarios;
+          g_overruns = 0;
+          Theta th = nearTheta(g, n, shape);
+          Built o = build(c, th, bps);
+          nearEvent(o, c, bps);
+          ++events;
+          Theta th2 = nearTheta(g, n, 1 - shape);
+          std::string r = outcome<bpp::Exception>([&]() { o.lik->setParametersValues(toPl(th2)); });
+          tracer().emit(Obj().kv("e", "XUpdate").kv("r", r));
+          nearEvent(o, c, bps);
+          events += 2;
+        }
+  return events;
+}
+
 static long modeExact(Rng& g, long reps, long& scenarios, long& skipped)
 {
   long events = 0;
@@ -1204,6 +1300,8 @@ static long modeExact(Rng& g, long reps, long& scenarios, long& skipped)
             for (size_t i = 0; i < len; ++i)
               if (g.coin()) m.ex[i] = xs[g.below(4)];
             if (len > 1 && g.coin()) m.ex[1 + g.below(len - 1)] = xs[g.below(4)];
+            // every site at 2^-600: the likelihood of a two-site prefix is below the smallest double
+            if (g.chance(1, 3)) m.ex.assign(len, 600);
           }
           for (size_t i = 0; i < len; ++i)
             for (size_t st = 0; st < n; ++st)
@@ -1292,7 +1390,11 @@ int main(int argc, char** argv)
   Rng g(envSeed() * 0x9e3779b97f4a7c15ULL + (mode == "cache" ? 13 : 1313));
   long scenarios = 0, events = 0, skipped = 0;
   if (mode == "cache") events = modeCache(g, n, depth, scenarios);
-  else events = modeExact(g, n, scenarios, skipped);
+  else
+  {
+    events = modeExact(g, n, scenarios, skipped);
+    events += modeNear(g, 2 * n, scenarios);
+  }
   tracer().close();
   printf("{\"mode\":\"%s\",\"scenarios\":%ld,\"events\":%ld,\"skipped\":%ld,\"overruns\":%ld}\n", mode.c_str(), scenarios, events, skipped, g_overruns.load());
   return 0;
